@@ -41,10 +41,13 @@ Variants(s, mm, M) ==
    \cup {Append(Append(s, s[1]), <<s[1][1] - M[1], s[1][2], s[1][3]>>)}
    \cup (IF mm # <<1, 1, 1>> THEN {Append(s, <<1, 1, 1>>), Append(DropAt(s, 1), <<s[1][1] + 1, s[1][2] + 1, s[1][3] + 1>>)} ELSE {})
 
+(* the value of a k-point: a function of the grid point it is an image of (all images of a grid point agree: symmetry
+   images); off-grid points carry values of their own (negative: they must appear nowhere) *)
+ValAt(p, t, gg, mm) == IF OnGrid(p, mm) THEN LET s == SlotIndex(KInt(p, gg, mm), gg) + 1 IN 7 * s * s - 3 * s + 1 ELSE -(5 * t + 2)
 Init == /\ g \in Grids /\ m \in Mults
         /\ pts \in UNION {Variants(Scale(o, m), m, Mesh(g, m)) : o \in Orders(g)}
         /\ Len(pts) >= 1
-        /\ vals = [t \in 1..Len(pts) |-> 7 * t * t - 3 * t + 1]
+        /\ vals = [t \in 1..Len(pts) |-> ValAt(pts[t], t, g, m)]
         /\ ~FindGridTie(pts, Mesh(g, m))
         /\ fg = FindGrid(pts, Mesh(g, m))
         /\ ik = 0 /\ kmap = KMapInit(g) /\ pc = "map" /\ out = <<>>
@@ -67,7 +70,7 @@ LoopIsOperator == Done => out = ToGridOp(pts, vals, g, m)
 (* C30 *)
 InvBijection == SlotBijection(g) /\ FactCovers(g)
 InvOwnValues == Done => OwnValues(pts, vals, g, m, out) /\ OnceOwnValue(pts, vals, g, m, out)
-InvMissing == Done => MissingIsError(pts, g, m, out)
+InvMissing == Done => MissingIsError(pts, g, m, out) /\ EmptySlotsAreMissing(pts, g, m, out)
 InvFindGrid == FindGridRecovers(pts, g, m)
 (* self_to_grid = to_grid(find_grid): with the recovered grid the same result *)
 InvSelfToGrid == Done /\ AllPlanes(pts, g, m) /\ AllOnGrid(pts, m) => ToGridOp(pts, vals, fg, m) = out
